@@ -782,7 +782,9 @@ pub fn process<I: BufRead, O: Write>(
                 } else if state == State::Active {
                     lines.push((filename_rc.clone(), line, included_in_rc.clone()));
                     output.write_all(new_line.as_bytes())?;
-                    if !new_line.ends_with('\n') && has_lf {
+                    // The last line of an included file may lack its newline: the includer's next
+                    // line must not be glued to it (one output line per line table entry)
+                    if !new_line.ends_with('\n') && (has_lf || !context.includes_stack.is_empty()) {
                         output.write_all(b"\n")?;
                     }
                 }
